@@ -62,12 +62,15 @@ def conjunction_check(k):
         def body(cx):
             it = H.interp(cx)
             ts = [abstract_transform(cx, it, H, f"t{i}") for i in range(k)]
+            # the members' key sets as they are BEFORE the construction (set objects are mutable and may be aliased)
+            req0, out0 = [t[1].arr for t in ts], [t[2].arr for t in ts]
             kind, c = call_catch(lambda: it.call(H.repo.get(f"{BASE}.Conjunction"), [[t[0] for t in ts]]))
-            same_req = z3.And([ts[i][1].arr == ts[0][1].arr for i in range(1, k)]) if k > 1 else z3.BoolVal(True)
+            same_req = z3.And([req0[i] == req0[0] for i in range(1, k)]) if k > 1 else z3.BoolVal(True)
             tq = z3.Const("t!q", TenS)
-            disj = z3.And([V.forall([tq], z3.Not(z3.And(ts[i][2].contains(tq), ts[j][2].contains(tq))))
+            disj = z3.And([V.forall([tq], z3.Not(z3.And(z3.Select(out0[i], tq), z3.Select(out0[j], tq))))
                            for i in range(k) for j in range(i + 1, k)]) if k > 1 else z3.BoolVal(True)
             ok = z3.And(same_req, disj)
+            cx.oblige(f"C14.conj{k}.init.members_key_sets_untouched", z3.And([ts[i][1].arr == req0[i] for i in range(k)] + [ts[i][2].arr == out0[i] for i in range(k)]))
             if kind == "raise":
                 cx.oblige(f"C14.conj{k}.init.raises_only_if_ill_formed", z3.And(c.cls == "ValueError", z3.Not(ok)))
                 return
@@ -75,8 +78,8 @@ def conjunction_check(k):
             cx.oblige(f"C14.conj{k}.init.accepts_only_if_well_formed.disjoint_outputs", disj)
             rk, okk = it.getattr(c, "required_keys"), it.getattr(c, "output_keys")
             x = cx.fresh_const("x", TenS)
-            cx.oblige(f"C14.conj{k}.keys.required", P.lift_set(it, rk).contains(x) == ts[0][1].contains(x))
-            cx.oblige(f"C14.conj{k}.keys.output_is_union", P.lift_set(it, okk).contains(x) == z3.Or([t[2].contains(x) for t in ts]))
+            cx.oblige(f"C14.conj{k}.keys.required", P.lift_set(it, rk).contains(x) == z3.Select(req0[0], x))
+            cx.oblige(f"C14.conj{k}.keys.output_is_union", P.lift_set(it, okk).contains(x) == z3.Or([z3.Select(o, x) for o in out0]))
         H.explore(body, max_paths=2000)
     return Check(f"conjunction{k}", [f"{BASE}.Conjunction.__init__"], fn, replay_keys=["C14.conjunction", "C14.construct"])
 
@@ -251,8 +254,8 @@ def union_check(H):
         names = ["TensorDict", "Gradients", "Jacobians", "GradientVectors", "JacobianMatrices", "EmptyTensorDict"]
         ia, ib = cx.choose(len(names), "clsA"), cx.choose(len(names), "clsB")
         ca, cb = mod.classes[names[ia]], mod.classes[names[ib]]
-        m = z3.Int("m")
-        cx.assume(m >= 0)
+        m, mb = z3.Int("m"), z3.Int("mb")   # first dimensions of the values of the two dictionaries (may differ)
+        cx.assume(z3.And(m >= 0, mb >= 0))
         Ka, Kb = A.tensor_list(cx, "Ka", distinct=True), A.tensor_list(cx, "Kb", distinct=True)
         if names[ia] == "EmptyTensorDict":
             cx.assume(Ka.length == 0)
@@ -261,13 +264,18 @@ def union_check(H):
         from .C02 import disjoint_seqs
         disjoint_seqs(cx, Ka, Kb)
         da = it.call(ca, [V.SymMap(Ka, lambda t: val_for(names[ia], t, m))] if names[ia] != "EmptyTensorDict" else [])
-        db = it.call(cb, [V.SymMap(Kb, lambda t: val_for(names[ib], t, m))] if names[ib] != "EmptyTensorDict" else [])
+        db = it.call(cb, [V.SymMap(Kb, lambda t: val_for(names[ib], t, mb))] if names[ib] != "EmptyTensorDict" else [])
         kind, out = call_catch(lambda: it.call(H.repo.get(f"{TR}._utils._union"), [[da, db]]))
-        cx.oblige("C14.union.no_raise", kind == "return", where=str(getattr(out, "where", "")))
-        if kind != "return":
-            return
         common = [c for c in ca.mro(H.repo) if cb.issubclass_of(H.repo, c)]
         minimal = [c for c in common if not any(d is not c and d.issubclass_of(H.repo, c) for d in common)]
+        # the merged dictionary is validated AS the common type: two row-typed dictionaries with different row counts must be
+        # rejected (both non-empty), everything else is accepted
+        rowtyped = len(minimal) == 1 and minimal[0].name in ("Jacobians", "JacobianMatrices")
+        must_raise = z3.And(Ka.length >= 1, Kb.length >= 1, m != mb) if rowtyped else z3.BoolVal(False)
+        if kind != "return":
+            cx.oblige("C14.union.raises_only_on_row_count_mismatch", z3.And(out.cls == "ValueError", must_raise), where=str(getattr(out, "where", "")))
+            return
+        cx.oblige("C14.union.accepts_only_consistent_row_counts", z3.Not(must_raise))
         cx.oblige(f"C14.union.type.{names[ia]}.{names[ib]}", len(minimal) == 1 and out.cls is minimal[0])
         x = cx.fresh_const("x", TenS)
         ina = P.map_dom(it, V.SymMap(Ka, lambda t: None))(x)
@@ -332,18 +340,27 @@ def stack_init_check(k):
         def body(cx):
             it = H.interp(cx)
             ts = [abstract_transform(cx, it, H, f"t{i}") for i in range(k)]
+            req0, out0 = [t[1].arr for t in ts], [t[2].arr for t in ts]
             kind, s = call_catch(lambda: it.call(H.repo.get(f"{TR}.stack.Stack"), [[t[0] for t in ts]]))
-            same_req = z3.And([ts[i][1].arr == ts[0][1].arr for i in range(1, k)]) if k > 1 else z3.BoolVal(True)
+            same_req = z3.And([req0[i] == req0[0] for i in range(1, k)]) if k > 1 else z3.BoolVal(True)
+            cx.oblige(f"C14.stack{k}.init.members_key_sets_untouched", z3.And([ts[i][1].arr == req0[i] for i in range(k)] + [ts[i][2].arr == out0[i] for i in range(k)]))
             if kind == "raise":
                 cx.oblige(f"C14.stack{k}.init.raises_only_if_required_keys_differ", z3.And(s.cls == "ValueError", z3.Not(same_req)))
                 return
             cx.oblige(f"C14.stack{k}.init.accepts_only_same_required_keys", same_req)
             x = cx.fresh_const("x", TenS)
-            cx.oblige(f"C14.stack{k}.keys.required", P.lift_set(it, it.getattr(s, "required_keys")).contains(x) == ts[0][1].contains(x))
-            cx.oblige(f"C14.stack{k}.keys.output_is_union", P.lift_set(it, it.getattr(s, "output_keys")).contains(x) == z3.Or([t[2].contains(x) for t in ts]))
+            cx.oblige(f"C14.stack{k}.keys.required", P.lift_set(it, it.getattr(s, "required_keys")).contains(x) == z3.Select(req0[0], x))
+            cx.oblige(f"C14.stack{k}.keys.output_is_union", P.lift_set(it, it.getattr(s, "output_keys")).contains(x) == z3.Or([z3.Select(o, x) for o in out0]))
         H.explore(body, max_paths=2000)
     return Check(f"stack_init{k}", [f"{TR}.stack.Stack.__init__"], fn, replay_keys=["C14.construct"])
 
 
 CHECKS += [typed_dict_shape_check("Jacobians"), typed_dict_shape_check("JacobianMatrices"), typed_dict_shape_check("GradientVectors"),
            stack_init_check(1), stack_init_check(2), stack_init_check(3)]
+
+
+def extra_checks():
+    """Conjunction._compute / Stack._compute (C15): each member runs once on the input, the result has the union of the keys, and
+    applying the transform stores nothing into it."""
+    from . import C15
+    return [c for c in C15.CHECKS if c.name in ("conj_compute2", "stack_compute2")]
